@@ -767,6 +767,28 @@ fn util_case(words: &[&str]) -> Result<String, ()> {
             });
             Ok(r.unwrap_or_else(|| "68".to_string()))
         }
+        // IP path failure transparent w h pad p0 ... : like I, over an image container with `pad` extra bytes
+        "IP" => {
+            let path = *words.get(1).ok_or(())?;
+            let (failure, transparent) = (int(2)?, int(3)?);
+            let (w, h, pad) = (int(4)? as u32, int(5)? as u32, int(6)? as usize);
+            let px = ints_from(7)?;
+            if px.len() as u64 != w as u64 * h as u64 {
+                return Err(());
+            }
+            let r = with_mapper(path, failure, transparent, |m| {
+                let mut raw = image_from_packed(w, h, &px).into_raw();
+                raw.extend(std::iter::repeat(0xEEu8).take(pad));
+                let src = RgbaImage::from_raw(w, h, raw).expect("harness: the container is large enough");
+                let ((w2, h2), data) = to_indexed_image(src, m);
+                let mut s = format!("62 {} {}", w2, h2);
+                for idx in data {
+                    s.push_str(&format!(" {}", idx));
+                }
+                s
+            });
+            Ok(r.unwrap_or_else(|| "68".to_string()))
+        }
         _ => Err(()),
     }
 }
